@@ -225,6 +225,15 @@ def main(tier, seed):
         chk.violation("oracle-rendezvous", "C04 violated on the real code: sync_channel(0): a blocking send() that was already parked in the channel when the loop "
                       "started dispatching (its try_send had returned Full) is never received: the message is not delivered and the sender stays blocked "
                       "although the loop keeps dispatching\nrendezvous case: parked\n# executed steps and observations: %s" % (pout[0][:400] if pout else ""))
+    # the only sender dies with its thread (panic): Closed must still arrive, once
+    try:
+        dout = p_c03.run_batch(vlib.HARNESS, "cchan0", ["panicdrop"], timeout=90)
+    except Exception as e:      # noqa
+        dout = ["TIMEOUT %s" % e]
+    chk.cov["sender_dropped_by_panicking_thread"] = dout[0][:200] if dout else "no output"
+    if not dout or dout[0].strip() != "M1 M2 CLOSED closed=1":
+        chk.violation("oracle-panicdrop", "C04 violated on the real code: the only sender was dropped by a thread that panicked (after its two messages had been "
+                      "delivered): the loop must deliver exactly one Closed afterwards\nsender case: panicdrop\n# observations: %s" % (dout[0][:300] if dout else ""))
     if bad:
         c, i, fs = min(bad, key=lambda x: len(x[0]))
         chk.violation("oracle", "C04 violated on the real code: %s\n%s\n# executed steps and observations: %s\n(%d failing schedules)" % (fs[0], c, i, len(bad)))
@@ -261,6 +270,11 @@ def f9_reproduces():
 
 
 def replay(path):
+    if "sender case: panicdrop" in open(path).read():
+        vlib.build_harness()
+        out = p_c03.run_batch(vlib.HARNESS, "cchan0", ["panicdrop"], timeout=90)
+        print(out[0] if out else "no output")
+        return 0 if out and out[0].strip() == "M1 M2 CLOSED closed=1" else 1
     if "rendezvous case: parked" in open(path).read():
         vlib.build_harness()
         out = p_c03.run_batch(vlib.HARNESS, "cchan0", ["parked"], timeout=90)
